@@ -16,6 +16,7 @@ package babble
 //@   ensures[retries] ret0 != nil && __fresh(ret0) && ret0.retries == 3
 
 //@ func (p *SocketBabbleProxyClient) SubmitTx(tx []byte) (*bool, error)
+//@   call call assert[own-reply] __owned(__arg(2))
 //@   requires p != nil && p.retries >= 1
 //@   ensures[error-reported] (ret1 == nil) == (__lastret("call", 0) == nil)
 //@   ensures[ack]            ret1 == nil ==> ret0 != nil
